@@ -675,6 +675,24 @@ pub fn check_c07(tier: Tier, seed: u64) -> i32 {
     check.run_random("splitter", cases, split_case, exec_split);
     let cases = tier.pick(1200, 60_000);
     check.run_random("end-to-end", cases, e2e_case, exec_e2e);
+    // fixed shapes: a reused block whose new content ends exactly at the boundary of a blob of its previous life
+    // (1 MiB blocks = one full blob of 170 one-page entries + a second blob), followed by a recovery scan: the scan must
+    // stop at the stale blob (its sequences go backwards)
+    let tails: Vec<u16> = tier.pick(vec![84], vec![84, 60, 30]);
+    let shapes: Vec<E2ECase> = tails
+        .into_iter()
+        .map(|n2| {
+            let mut ops = vec![];
+            for _ in 0..4 {
+                ops.push(EOp::Run { n: 170 });
+                ops.push(EOp::Run { n: n2 });
+            }
+            ops.push(EOp::Run { n: 170 });
+            ops.push(EOp::Reopen);
+            E2ECase { block_kib: 1024, index_pages: 1, flushers: 1, blocks: 4, ops }
+        })
+        .collect();
+    check.run_fixed("stale-tail-of-reused-block", &shapes, exec_e2e);
     crate::fuzzglue::replay_seed_corpus(&check, "splitter");
     if tier == Tier::Thorough {
         crate::fuzzglue::campaign(&check, "splitter", 400_000, 256);
